@@ -108,7 +108,7 @@ const (
 var pairingNames = []string{"real-real", "refinit-real", "real-refresp"}
 
 const (
-	scClientFirst = iota
+	scClientFirst     = iota
 	scServerCoalesced // the server's first payload reaches the client together with the server's key-establishment message
 	scClientCoalesced // the client's first payload reaches the server together with the client's key-establishment message
 	scBothAtOnce
@@ -400,7 +400,6 @@ func runConn(c *mon.Case, r *mon.Run, p params) {
 	defer restore() // runs after finish(): no goroutine of this connection is left
 
 	var sc, cc net.Conn
-	var refC *ref.Conn
 	var sErr, cErr error
 	srvDone, cliDone := make(chan struct{}), make(chan struct{})
 	side := func(server bool) {
@@ -420,7 +419,6 @@ func runConn(c *mon.Case, r *mon.Run, p params) {
 		default:
 			var rc *ref.Conn
 			rc, err = ref.Handshake(wire, refOpts)
-			refC = rc
 			if err == nil {
 				conn = rc
 				if coalesce { // already sent inside Handshake, in the same write as the message
@@ -523,7 +521,6 @@ func runConn(c *mon.Case, r *mon.Run, p params) {
 		if p.edgeSeed != 0 {
 			r.Count("ref_seed_all_zero_or_all_ones", 1)
 		}
-		_ = refC
 	}
 
 	for _, x := range []struct {
